@@ -53,6 +53,7 @@ def plan(tier):
             units += [(tier, sname, n, k, sh) for k in range(sh)]
     units.append((tier, 'roots', 0, 0, 1))
     units += [(tier, 'matrix', 0, k, 16) for k in range(16)]
+    units.append((tier, 'boundvars', 0, 0, 1))
     return units
 
 
@@ -192,6 +193,33 @@ def run(unit):
             r.violation(kind, {'text': detail}, detail, size=1)
         r.count('validated', r.counters['evaluations'])
         return r
+    if sname == 'boundvars':
+        # the bound variable of a quantifier over a set / range literal used at a type disjoint from the
+        # element type - alone, and after a loosely typed first occurrence (both orders)
+        doms = [('{1, 2}', 'N'), ('[0 to 3]', 'N'), ('![0 to x]!', 'N'), ('{"a"}', 'S'), ('{True}', 'B'), ('{x + 1}', 'N')]
+        clash = {'N': ['not @i', '@i and p', '@i = "a"', 'len(@i) > 0'], 'S': ['@i > 0', 'not @i', '@i + 1 = y'], 'B': ['@i > 0', '@i = "a"', 'abs(@i) > 0']}
+        weak = ['@i = @v', '@i in {@v}', '@v != @i', 'bool(@i)']
+        problems = []
+        for dtext, kind in doms:
+            for q in ('forall', 'exists'):
+                for c in clash[kind]:
+                    bodies = [c] + [f'({w} and {c})' for w in weak] + [f'({c} and {w})' for w in weak] + [f'({w} and ({w2} and {c}))' for w in weak[:2] for w2 in weak[2:]]
+                    for body in bodies:
+                        text = f'{q} i in {dtext}: {body}'
+                        r.count('evaluations')
+                        r.count('states')
+                        expect_type_error('expr', text, 'bound variable used outside the element type of its domain', r, problems)
+                        expect_type_error('pred', '{ ' + text + ' }', 'bound variable used outside the element type of its domain', r, problems)
+                        expect_type_error('prop', 'globally: no t { ' + text + ' }', 'bound variable used outside the element type of its domain', r, problems)
+        seen = set()
+        for kind_, detail in problems:
+            if kind_ in seen:
+                continue
+            seen.add(kind_)
+            r.violation(kind_, {'boundvars': True, 'text': detail}, detail, size=len(detail))
+        r.count('validated', r.counters['evaluations'])
+        r.sample({'bound_variable_case': 'forall i in {1, 2}: (@i = @v and @i = "a")'})
+        return r
     if sname == 'matrix':
         from hplmc import sigmatrix
 
@@ -241,6 +269,8 @@ def replay(w):
     from hplmc.checks.c08 import _detuple
 
     r = Result()
+    if w.get('boundvars'):
+        return [{'sig': v['sig'], 'detail': v['detail']} for v in run(('quick', 'boundvars', 0, 0, 1)).violations]
     if w.get('matrix'):
         problems = []
         for k_ in ('expr',):
@@ -254,7 +284,7 @@ def replay(w):
 def describe(tier):
     b = bounds(tier)
     return {
-        'rule': f"base: every accepted Bool term with <= {b['nodes']} nodes of the C04 universe for schemas {list(b['schemas'])}; for every argument position (operands of all operators, function arguments, range bounds, set elements, quantifier domains and bodies, indices) every filler of a 15-term menu (literals of each primitive sort, operator / function / quantifier results of each sort, a set, a range) whose own type is disjoint from the parameter type is injected - one clash per text, confirmed by the reference definite-clash analysis - and parsed as expression, predicate and property; plus reuse of each reference at a disjoint type (both conjunct orders) through the predicate, condition and property parsers; plus non-boolean roots; plus the signature matrix: every unary / binary operator and every built-in function with every wrong-sorted non-reference operand / argument (3 shapes per sort), every misuse of its result at a disjoint type, and one-argument calls of the two-argument functions. evaluations = injected texts; every one must raise TypeError.",
+        'rule': f"base: every accepted Bool term with <= {b['nodes']} nodes of the C04 universe for schemas {list(b['schemas'])}; for every argument position (operands of all operators, function arguments, range bounds, set elements, quantifier domains and bodies, indices) every filler of a 15-term menu (literals of each primitive sort, operator / function / quantifier results of each sort, a set, a range) whose own type is disjoint from the parameter type is injected - one clash per text, confirmed by the reference definite-clash analysis - and parsed as expression, predicate and property; plus reuse of each reference at a disjoint type (both conjunct orders) through the predicate, condition and property parsers; plus non-boolean roots; plus quantifiers over set / range literals whose bound variable is used at a type disjoint from the element type, alone and after 1-2 loosely typed occurrences (6 domains x 2 quantifiers x 3-4 clashing uses x 13 bodies); plus the signature matrix: every unary / binary operator and every built-in function with every wrong-sorted non-reference operand / argument (3 shapes per sort), every misuse of its result at a disjoint type, and one-argument calls of the two-argument functions. evaluations = injected texts; every one must raise TypeError.",
         'bounds': {'nodes': b['nodes']},
         'exhaustive': True,
         'assumptions': ['= / != clashes are generated only between two operands that each certainly have one base type (literal or operator/function result); transitive clashes through references and heterogeneous sets are not claimed and not generated'],
